@@ -39,7 +39,9 @@ ENCODINGS = [
     ("utf16be-bom", lambda t: b"\xfe\xff" + t.encode("utf-16-be")),
     ("cp1252", lambda t: t.encode("cp1252")),
 ]
-NON_ASCII_1252 = ["é", "ü", "ß", "€", "Ñ", "æ", "©", "±"]
+NON_ASCII_1252 = ["é", "ü", "ß", "€", "Ñ", "æ", "©", "±", "—", "•", "…", "“", "”", "™", "œ", "Š"]
+# the characters Windows-1252 keeps in 0x80-0x9F: one byte there, three bytes in UTF-8
+C1_BLOCK_1252 = "€‚ƒ„…†‡ˆ‰Š‹ŒŽ‘’“”•–—˜™š›œžŸ"
 NON_ASCII_WIDE = ["日本", "λ", "Ж", "🙂", "ё", "\ufffd", "\u00ad", "\ufeff"]
 TOKEN_LINE = re.compile(r"^Type: (\w+), Value: '(.*)', At: Ln (\d+),Col (\d+)$")
 
@@ -124,6 +126,16 @@ def shard(shard_i, nshards, payload):
                 text = "(*@KEY@:DESCRIPTION*)%s%s%s(*@KEY@:END_DESCRIPTION*)\n%s" % (
                     rng.choice(["\n", " ", ""]), body, rng.choice(["\n", " ", ""]), text)
                 kind += "+oscat"
+            if i % 8 == 6 and not wide:
+                # a decorative banner in front (rules of dashes, bullets, quotes): more characters of the 0x80-0x9F block
+                # than there are ASCII characters in the file, i.e. a file that grows more than twofold when decoded
+                width = rng.choice([40, 72, 100])
+                nlines = max(3, int(len(text) * rng.choice([0.6, 1.1, 2.0]) / width))
+                rule = rng.choice(C1_BLOCK_1252)
+                banner = "\n".join("(*%s*)" % "".join(rule if rng.random() < 0.8 else rng.choice(C1_BLOCK_1252) for _ in range(width))
+                                   for _ in range(nlines))
+                text = banner + "\n" + text
+                kind += "+banner"
             if i % 3 == 1:
                 # the file ends in a trailing comment / stray character whose last character is not ASCII, no final line
                 # break: its last bytes are a multi-byte sequence (or, in Windows-1252, the start of one)
